@@ -25,7 +25,7 @@ from verifkit import pat
 from verifkit.absrun import Obj, Runner, StandIn
 from verifkit.core import Outcome
 from verifkit.dim import dims
-from verifkit.finite import Ev, Undecided
+from verifkit.finite import Ev, Raised, Undecided
 
 ASSUMPTIONS = ["two straight segments in general position cross in at most one point (exact rational solver)"]
 U = ast.unparse
@@ -270,40 +270,49 @@ def r14_3(ctx):
         (out.ok if ok else out.bad)(fn.qname, "parallel lines -> no pair" if ok else f"parallel lines: {got!r}", where=fn.where())
     except (Undecided, ZeroDivisionError) as ex:
         out.bad(fn.qname, f"parallel lines are not handled ({type(ex).__name__})", where=fn.where())
-    # Newton clamp
+    # Newton clamp: abstract run of the Newton search on two straight stand-in curves whose supporting lines cross
+    # outside one or both segments (Newton is exact for lines): every stored / returned parameter must be in [0, 1]
     fb = ctx.fn("curve.Intersection.bezier_and_bezier")
-    adds = [n for n in ast.walk(fb.node) if isinstance(n, ast.Call) and isinstance(n.func, ast.Attribute)
-            and n.func.attr in ("add", "append") and n.args]
-    defs = pat.local_defs(fb)
-    decided = False
-    for c in adds:
-        e = c.args[0]
-        if isinstance(e, ast.Name) and len(defs.get(e.id, [])) == 1 and not isinstance(defs[e.id][0], tuple):
-            e = defs[e.id][0]
-        if not (isinstance(e, ast.Tuple) and len(e.elts) == 2):
-            continue
-        names = sorted({n.id for n in ast.walk(e) if isinstance(n, ast.Name) and n.id not in ("min", "max")})
-        if len(names) != 2:
-            continue
-        decided = True
-        bad = None
-        for a, b in itertools.product((Fr(-1), Fr(0), Fr(1, 2), Fr(1), Fr(2)), repeat=2):
+
+    class Line(StandIn):
+        def __init__(self, p, d):
+            self.p, self.d, self.degree = p, d, 1
+
+        def at(self, t):
             try:
-                u, v = Ev({names[0]: a, names[1]: b}).ev(e)
-            except Undecided as ex:
-                out.undecided(fb.qname, f"update not interpretable: {ex}", where=fb.where(c))
-                bad = "undecided"
-                break
+                return tuple(self.at(x) for x in t)
+            except TypeError:
+                return Vec(self.p.x + self.d.x * Fr(t), self.p.y + self.d.y * Fr(t))
+
+        __call__ = eval = at
+
+        def derivate(self, times=1):
+            return Line(self.d, Vec(0, 0)) if times == 1 else Line(Vec(0, 0), Vec(0, 0))
+
+    def vneg(v):
+        return Vec(-v.x, -v.y)
+    Vec.__neg__ = lambda self: vneg(self)
+    worst = None
+    for (ka, a), (kb, b) in itertools.product(REP.items(), repeat=2):
+        # A(u) = (u, 0), B(v) = (a, v - b): the lines cross at u = a, v = b
+        A, B = Line(Vec(0, 0), Vec(1, 0)), Line(Vec(a, -b), Vec(0, 1))
+        start = [(Fr(1, 2), Fr(1, 2)), (Fr(0), Fr(1))]
+        try:
+            got = Runner(ctx, set(), lambda rn, ev, c, n, r, ar, k: True if n == "isinstance" and ar and isinstance(ar[0], Fr)
+                         and U(c.args[1]) == "Fraction" else NotImplemented).call_fn(fb, [A, B, start])
+        except (Undecided, Raised) as ex:
+            out.undecided(fb.qname, f"Newton search not interpretable: {ex}", where=fb.where())
+            worst = "undecided"
+            break
+        for pair in (got or ()):
+            u, v = pair
             if not (0 <= u <= 1 and 0 <= v <= 1):
-                bad = (a, b, u, v)
-                break
-        if bad and bad != "undecided":
-            out.bad(fb.qname, "Newton update is not clamped to [0,1] on both parameters", where=fb.where(c),
-                    detail=f"raw update {bad[:2]} is stored as {bad[2:]}")
-        elif not bad:
-            out.ok(fb.qname, "Newton update clamped to [0,1]^2", where=fb.where(c))
-    if not decided:
-        out.undecided(fb.qname, "no stored parameter pair recognised", where=fb.where())
+                worst = (ka, kb, u, v)
+    if worst is None:
+        out.ok(fb.qname, "Newton update clamped to [0,1]^2 (25 crossing positions of two straight stand-ins)", where=fb.where())
+    elif worst != "undecided":
+        out.bad(fb.qname, "Newton update is not clamped to [0,1] on both parameters", where=fb.where(),
+                detail=f"lines crossing at parameters ({worst[0]}, {worst[1]}): the search returns ({worst[2]}, {worst[3]})")
     return out
 
 
